@@ -3137,21 +3137,38 @@ class Normalizer:
             for n in _walk_no_scopes(fn):
                 if isinstance(n, ast.Name) and isinstance(n.ctx, (ast.Store, ast.Del)):
                     stores[n.id] = stores.get(n.id, 0) + 1
+            # a local is a record when every binding of it is one: C(..), a package call annotated to return C, an annotation
+            seen_defs: t.Dict[str, t.List[t.Optional[str]]] = {}
             for n in _walk_no_scopes(fn):
-                if isinstance(n, ast.AnnAssign) and isinstance(n.target, ast.Name) and ann_rec(n.annotation):
-                    typed[n.target.id] = t.cast(str, ann_rec(n.annotation))
-                if isinstance(n, ast.Assign) and len(n.targets) == 1 and isinstance(n.targets[0], ast.Name) and stores.get(n.targets[0].id) == 1 and isinstance(n.value, ast.Call):
-                    fx = n.value.func
-                    if isinstance(fx, ast.Name) and fx.id in recs and repo.resolve_name(fx.id, f.mod) is recs[fx.id]:
-                        typed[n.targets[0].id] = fx.id
-                    else:
-                        cal = self._callee(f, n.value, stored_names(fn) | {a_.arg for a_ in _params(fn)})
-                        if cal is not None and ann_rec(cal[0].node.returns):
-                            typed[n.targets[0].id] = t.cast(str, ann_rec(cal[0].node.returns))
+                if isinstance(n, ast.AnnAssign) and isinstance(n.target, ast.Name):
+                    seen_defs.setdefault(n.target.id, []).append(ann_rec(n.annotation))
+                if isinstance(n, ast.Assign) and len(n.targets) == 1 and isinstance(n.targets[0], ast.Name):
+                    kind: t.Optional[str] = None
+                    if isinstance(n.value, ast.Call):
+                        fx = n.value.func
+                        if isinstance(fx, ast.Name) and fx.id in recs and repo.resolve_name(fx.id, f.mod) is recs[fx.id]:
+                            kind = fx.id
+                        else:
+                            cal = self._callee(f, n.value, stored_names(fn) | {a_.arg for a_ in _params(fn)})
+                            if cal is not None:
+                                kind = ann_rec(cal[0].node.returns)
+                    seen_defs.setdefault(n.targets[0].id, []).append(kind)
+            for nm, kinds in seen_defs.items():
+                if kinds and all(k is not None for k in kinds) and len(set(kinds)) == 1 and stores.get(nm) == len(kinds) and nm not in {a_.arg for a_ in _params(fn)}:
+                    typed[nm] = t.cast(str, kinds[0])
             hit = [False]
 
             class T(ast.NodeTransformer):
                 def visit_Attribute(self, node: ast.Attribute) -> ast.AST:
+                    # C(a, b).f read on the spot is the field's argument
+                    v0 = node.value
+                    if isinstance(node.ctx, ast.Load) and isinstance(v0, ast.Call) and isinstance(v0.func, ast.Name) and v0.func.id in recs and repo.resolve_name(v0.func.id, f.mod) is recs[v0.func.id] and node.attr in fields[v0.func.id] and not any(isinstance(a, ast.Starred) for a in v0.args) and all(k.arg for k in v0.keywords):
+                        given0: t.Dict[str, ast.expr] = dict(zip(fields[v0.func.id], v0.args))
+                        for k in v0.keywords:
+                            given0[t.cast(str, k.arg)] = k.value
+                        if node.attr in given0 and all(_is_pure(x) for n_, x in given0.items() if n_ != node.attr):
+                            hit[0] = True
+                            return self.visit(given0[node.attr])
                     self.generic_visit(node)
                     if isinstance(node.ctx, ast.Load) and isinstance(node.value, ast.Name) and node.value.id in typed and node.attr in fields[typed[node.value.id]]:
                         hit[0] = True
@@ -3186,6 +3203,33 @@ class Normalizer:
             self_ = self
             new = copy.deepcopy(fn)
             T().visit(new)
+
+            def tuple_ann(ann: t.Optional[ast.expr]) -> t.Optional[ast.expr]:
+                """C / Optional[C] / "C"  ->  tuple[<field annotations>] (same wrapper)"""
+                if ann is None:
+                    return None
+                if isinstance(ann, ast.Constant) and isinstance(ann.value, str):
+                    try:
+                        ann = ast.parse(ann.value, mode="eval").body
+                    except SyntaxError:
+                        return None
+                if isinstance(ann, ast.Subscript) and unparse(ann.value).endswith("Optional"):
+                    inner = tuple_ann(ann.slice)
+                    return ast.Subscript(value=ann.value, slice=inner, ctx=ast.Load()) if inner is not None else None
+                if isinstance(ann, ast.Name) and ann.id in recs:
+                    fas = [copy.deepcopy(fl.ann) if fl.ann is not None else ast.Name(id="object", ctx=ast.Load()) for fl in recs[ann.id].init_params()]
+                    return ast.Subscript(value=ast.Name(id="tuple", ctx=ast.Load()), slice=ast.Tuple(elts=fas, ctx=ast.Load()), ctx=ast.Load())
+                return None
+
+            for a in _params(new):
+                ta = tuple_ann(a.annotation)
+                if ta is not None:
+                    a.annotation = ta
+                    hit[0] = True
+            tr = tuple_ann(new.returns)
+            if tr is not None:
+                new.returns = tr
+                hit[0] = True
             if hit[0]:
                 ast.fix_missing_locations(new)
                 self._replace_node(f, new)
